@@ -14,7 +14,7 @@ BOUNDS = {'quick': 'L<=4, d<=3 (built-in models d<=4, L<=3), D<=4', 'thorough': 
 EXHAUSTIVE = {'quick': False, 'thorough': False}
 
 KINDS = {
-    'vdot': ('same_sector', 'self', 'diff_sector', 'left_fold'),
+    'vdot': ('same_sector', 'self', 'diff_sector', 'left_fold', 'offset_sector'),
     'norm': ('norm',),
     'avg': ('zero_boundary', 'charged_boundary', 'left_fold'),
     'inner': ('connected', 'same_sector'),
@@ -40,7 +40,7 @@ def cases(tier, seed):
                         m = H.MODELS[model]
                         if L < m['Lmin'] or (m['d'] == 4 and L > (3 if quick else 4)) or (kind == 'env2' and L < 2):
                             continue
-                        for entries in ('complex', 'real'):
+                        for entries in ('complex', 'real', 'mixed'):
                             for r in range(2 * reps):
                                 yield dict(kind=kind, var=var, L=L, d=m['d'], model=model, qstyle='model', entries=entries, Dmax=Dmax,
                                            seed=int(rng.integers(1 << 31)))
@@ -51,7 +51,7 @@ def cases(tier, seed):
                             continue
                         if kind == 'env2' and L < 2:
                             continue
-                        for entries in ('complex', 'real'):
+                        for entries in ('complex', 'real', 'mixed'):
                             for r in range(reps):
                                 yield dict(kind=kind, var=var, L=L, d=d, qstyle=qs, entries=entries, Dmax=Dmax,
                                            seed=int(rng.integers(1 << 31)))
@@ -96,6 +96,16 @@ class _Case:
             self.fail(fn_name, 'returns', f'raised {type(e).__name__}: {e}')
             return False, None
 
+    def ent(self):
+        """entry kind of the next object: 'mixed' cases draw it per object (real state with complex operator, ...)"""
+        e = self.c['entries']
+        if e != 'mixed':
+            return e
+        self._nmixed = getattr(self, '_nmixed', 0) + 1
+        # the first object is real and the second complex (or the other way round), later ones are drawn at random
+        first = ('real', 'complex') if self.c['seed'] % 2 else ('complex', 'real')
+        return first[self._nmixed - 1] if self._nmixed <= 2 else ('real', 'complex')[int(self.rng.integers(2))]
+
     def _dmax(self, Dmax=None):
         # mostly bonds > 1 (bond dimension 1 everywhere hides index-order slips), sometimes the degenerate profile
         Dmax = Dmax or self.c['Dmax']
@@ -103,13 +113,13 @@ class _Case:
 
     def mps(self, q0, q1):
         rng = self.rng
-        return H.rand_mps(rng, self.qd, self.L, self._dmax(), q0, q1, self.c['entries'],
+        return H.rand_mps(rng, self.qd, self.L, self._dmax(), q0, q1, self.ent(),
                           bstyle=BSTYLES[int(rng.integers(len(BSTYLES)))],
                           order=('random', 'sorted', 'reverse')[int(rng.integers(3))])
 
     def mpo(self, q0, q1, Dmax=None):
         rng = self.rng
-        return H.rand_mpo(rng, self.qd, self.L, self._dmax(Dmax), q0, q1, self.c['entries'],
+        return H.rand_mpo(rng, self.qd, self.L, self._dmax(Dmax), q0, q1, self.ent(),
                           bstyle=BSTYLES[int(rng.integers(len(BSTYLES)))],
                           order=('random', 'sorted', 'reverse')[int(rng.integers(3))])
 
@@ -139,7 +149,7 @@ class _Case:
             ok, r = self.call('hamiltonian', H.model_hamiltonian, self.rng, self.c['model'], self.L)
             return r[1] if ok else None
         if var == 'herm':
-            return H.hermitian_mpo(self.rng, self.qd, self.L, int(self.rng.integers(1, 3)), self.c['entries'])
+            return H.hermitian_mpo(self.rng, self.qd, self.L, int(self.rng.integers(1, 3)), self.ent())
         return self.mpo(0, 0)
 
 
@@ -169,7 +179,7 @@ def run_case(c):
     k = _Case(c)
     rng, L, var, kind = k.rng, k.L, c['var'], c['kind']
     objs = []
-    ent = c['entries']
+    ent = 'complex' if c['entries'] == 'mixed' else c['entries']        # local probe tensors X, Y
     if kind in ('vdot', 'norm'):
         sp = H.pick_sector(rng, k.qd, L)
         psi = k.mps(*sp)
@@ -178,6 +188,10 @@ def run_case(c):
             chi = k.mps(*sc)
         elif var == 'self':
             chi = psi
+        elif var == 'offset_sector':
+            # the same physical sector with all bond charges shifted (non-zero leading charge): the overlap is generically non-zero
+            sh = int(rng.choice([-2, -1, 1, 2]))
+            chi = k.mps(sp[0] + sh, sp[1] + sh)
         else:
             chi = k.mps(*sp)
         objs = [psi, chi]
